@@ -347,6 +347,7 @@ class Deadline:
         def onalarm(signum, frame):
             raise Hang('no termination within %ds' % self.seconds)
         # CPU time of this process, not wall-clock time: a loop that never ends burns CPU, a loaded machine does not
+        self._outer = signal.getitimer(signal.ITIMER_PROF)          # an enclosing deadline, put back on the way out
         self._old = signal.signal(signal.SIGPROF, onalarm)
         signal.setitimer(signal.ITIMER_PROF, self.seconds, 0.5)     # keeps firing should one be swallowed
         return self
@@ -355,7 +356,19 @@ class Deadline:
         import signal
         signal.setitimer(signal.ITIMER_PROF, 0)
         signal.signal(signal.SIGPROF, self._old)
+        if self._outer[0] > 0:
+            signal.setitimer(signal.ITIMER_PROF, self._outer[0], self._outer[1] or 0.5)
         return False
+
+
+def guarded(fn, seconds=40, what='oracle'):
+    """run an oracle that drives the library outside the per-scenario watchdog: if the library never comes back, that is the
+    failure"""
+    try:
+        with Deadline(seconds):
+            return fn()
+    except Hang as e:
+        return [{'what': 'does-not-terminate: %s (%s)' % (what, e), 'guarded': what}]
 
 
 def run_all(descs, post=None, deadline=8):
